@@ -582,10 +582,81 @@ pub fn check_raw(r: &RawInput, probe: &Probe) -> Verdict {
     v
 }
 
+/// Characters for the line-edit part: ASCII, and multi-byte characters in groups that share their UTF-8 lead
+/// byte(s), so that two lines can differ in a continuation byte only.
+const EDIT_CHARS: &[char] = &['a', 'b', ' ', '=', '"', 'é', 'è', 'ê', 'е', 'и', 'б', '日', '旦', '本', '😀', '😁', '👍', '\u{a0}', '\u{301}', 'ß', '€'];
+
+#[derive(Clone, Debug, Serialize, Deserialize)]
+pub struct LineEdits {
+    /// lines of the block's content in the old state (indexes into EDIT_CHARS)
+    pub old: Vec<Vec<u8>>,
+    /// character edits giving the new state: (line, position, kind 0 substitute / 1 insert / 2 delete, character)
+    pub edits: Vec<(u8, u8, u8, u8)>,
+    pub unified: u8,
+}
+
+/// Line-edit part: the old and new state differ by a few character edits inside short lines of mixed ASCII and
+/// multi-byte text; real `git diff` piped to `blockwatch` and `blockwatch list` (the per-line character diff
+/// runs on every removed/added pair).
+pub fn check_line_edits(c: &LineEdits, probe: &Probe) -> Verdict {
+    let to_line = |v: &Vec<char>| -> String { v.iter().collect() };
+    let old: Vec<Vec<char>> = c.old.iter().map(|l| l.iter().map(|i| EDIT_CHARS[*i as usize % EDIT_CHARS.len()]).collect()).collect();
+    let mut new = old.clone();
+    for (l, p, k, ch) in &c.edits {
+        if new.is_empty() {
+            break;
+        }
+        let li = *l as usize % new.len();
+        let line = &mut new[li];
+        let ch = EDIT_CHARS[*ch as usize % EDIT_CHARS.len()];
+        match k % 3 {
+            0 if !line.is_empty() => {
+                let i = *p as usize % line.len();
+                line[i] = ch;
+            }
+            1 => {
+                let i = *p as usize % (line.len() + 1);
+                line.insert(i, ch);
+            }
+            2 if !line.is_empty() => {
+                let i = *p as usize % line.len();
+                line.remove(i);
+            }
+            _ => {}
+        }
+    }
+    let file = |ls: &Vec<Vec<char>>| format!("# <block name=\"u\" keep-unique>\n{}# </block>\nafter = 1\n", ls.iter().map(|l| format!("{}\n", to_line(l))).collect::<String>());
+    let (old_t, new_t) = (file(&old), file(&new));
+    if old.iter().zip(&new).any(|(a, b)| a != b && a.iter().zip(b).position(|(x, y)| x != y).is_some_and(|i| a[i].len_utf8() > 1 && b[i].len_utf8() > 1)) {
+        probe.nontrivial(); // the first differing character of a changed line is multi-byte on both sides
+    }
+    let sb = Sandbox::new();
+    sb.init_repo();
+    sb.write("u.py", old_t.as_bytes());
+    sb.commit_all("old");
+    sb.write("u.py", new_t.as_bytes());
+    let d = sb.git_diff(&[&format!("-U{}", c.unified % 4)]);
+    for (mode, args) in [("diff", vec![]), ("diff-list", vec!["list"])] {
+        let mut r = BwRun::diff(&args, d.as_bytes());
+        r.timeout_s = Some(30);
+        probe.child();
+        probe.evals(1);
+        let o = sb.bw(&r);
+        if o.timed_out {
+            return Verdict::Unspecified("slow run (inconclusive)");
+        }
+        if let Some(why) = bad_exit(&o) {
+            return Verdict::Fail(format!("C04 [line edits]: {why} in {mode} mode\n--- old ---\n{old_t}--- new ---\n{new_t}--- diff ---\n{d}\n--- observed ---\n{}", o.brief()));
+        }
+    }
+    probe.sample(|| json!({"old": old_t, "new": new_t}));
+    Verdict::Pass
+}
+
 pub fn run(run: &mut Run) {
     run.sentinel("K6", "raw", check_raw);
     run.enumerate("raw", Vec::<RawInput>::new(), None, check_raw);
-    run.rule = "two enumerated and three random parts. deep: 16 repetitive shapes (nested parentheses / brackets / braces / elements, block-quote prefixes, comment openers, comment lines, nested <block> tags, member and operator chains, quotes, nested lists, backticks, unfinished tags) repeated 300 and 1 000 (thorough 3 000) times under every suffix, and expression nesting 40 000 (thorough 200 000) deep under 18 suffixes, on the CLI in scan and list mode. unicode-sweep: the golden file of every (suffix, comment form) with one unusual character (NBSP, ideographic space, U+2028, NEL, é, emoji, combining mark, BOM, VT, CR, NUL) inserted at every byte position, or substituted for each blank, parsed + validated in-process. soup: 1..40 tokens drawn from 155 fragments (comment delimiters of every language, tag fragments, half-written tags, quotes, brackets, newlines/CR/CRLF, NBSP, zero-width, emoji, combining marks, BOM, here-doc/PHP/Markdown/XML openers, small valid statements), glued or space-separated, run in-process (parse + sync validators) under all 39 suffixes. mutants: delete/duplicate/insert-token/truncate/move-span mutations of valid files (golden file of every suffix x comment form, and the repository's own sources, tests, README, capped at 8 KiB) under their own suffix in-process. cli: a mutant committed and a further mutation in the work tree, real `git diff -U0..3` piped to `blockwatch` and `blockwatch list`, plus scan and list, under the file's suffix and a second random suffix. Every in-process panic is re-run on the CLI before it is reported. Evaluations count (input, suffix, mode) runs. Non-trivial input = unbalanced comment delimiters, a half-written tag, a Markdown definition opener or a degenerate `<!-->`.".into();
+    run.rule = "two enumerated and four random parts. line-edits: a block of 1..4 short lines over 21 characters (ASCII and multi-byte characters in groups sharing their UTF-8 lead bytes) changed by 1..4 character substitutions / insertions / deletions, real `git diff -U0..3` piped to `blockwatch` and `blockwatch list` (non-trivial = the first differing character of a changed line is multi-byte on both sides). deep: 16 repetitive shapes (nested parentheses / brackets / braces / elements, block-quote prefixes, comment openers, comment lines, nested <block> tags, member and operator chains, quotes, nested lists, backticks, unfinished tags) repeated 300 and 1 000 (thorough 3 000) times under every suffix, and expression nesting 40 000 (thorough 200 000) deep under 18 suffixes, on the CLI in scan and list mode. unicode-sweep: the golden file of every (suffix, comment form) with one unusual character (NBSP, ideographic space, U+2028, NEL, é, emoji, combining mark, BOM, VT, CR, NUL) inserted at every byte position, or substituted for each blank, parsed + validated in-process. soup: 1..40 tokens drawn from 155 fragments (comment delimiters of every language, tag fragments, half-written tags, quotes, brackets, newlines/CR/CRLF, NBSP, zero-width, emoji, combining marks, BOM, here-doc/PHP/Markdown/XML openers, small valid statements), glued or space-separated, run in-process (parse + sync validators) under all 39 suffixes. mutants: delete/duplicate/insert-token/truncate/move-span mutations of valid files (golden file of every suffix x comment form, and the repository's own sources, tests, README, capped at 8 KiB) under their own suffix in-process. cli: a mutant committed and a further mutation in the work tree, real `git diff -U0..3` piped to `blockwatch` and `blockwatch list`, plus scan and list, under the file's suffix and a second random suffix. Every in-process panic is re-run on the CLI before it is reported. Evaluations count (input, suffix, mode) runs. Non-trivial input = unbalanced comment delimiters, a half-written tag, a Markdown definition opener or a degenerate `<!-->`.".into();
     run.assumptions = vec![
         "inputs are at most 16 KiB (edited lines are short: the character diff of one replaced line is quadratic, slowness on very long lines is not flagged)".into(),
         "only git-made diffs are piped in".into(),
@@ -600,6 +671,12 @@ pub fn run(run: &mut Run) {
     run.random("mutants", run.tier.pick(20000, 600000), mutant, check_mutant);
     run.shrink_iters = 100;
     run.random("cli", run.tier.pick(400, 10000), cli, check_cli);
+    let edits = || {
+        (proptest::collection::vec(proptest::collection::vec(any::<u8>(), 0..12), 1..5), proptest::collection::vec((any::<u8>(), any::<u8>(), 0u8..3, any::<u8>()), 1..5), 0u8..4)
+            .prop_map(|(old, edits, unified)| LineEdits { old, edits, unified })
+            .boxed()
+    };
+    run.random("line-edits", run.tier.pick(600, 20000), edits, check_line_edits);
     if run.tier == crate::engine::Tier::Thorough {
         // corpus: every valid seed file prefixed with its suffix index
         let seeds: Vec<Vec<u8>> = seeds().iter().map(|s| {
